@@ -10,6 +10,7 @@ CONSTANTS
   Flags = {}
   MaxDeliveries = 10
   HeadersFirst = TRUE
+  SimProfile = "mixed"
   TxShapes = "none"
 VIEW View
 INVARIANTS TypeOK HeadValidated HeadMaxWork BodiesValid UnspentIsReplay IndexConsistent SpentIdxInv SumsInv Confluence OrphansRetried OnlyValidRemembered
